@@ -28,7 +28,8 @@ REQUIRED_COUNTERS = {"asked_from_descendant": {"quick": 100, "thorough": 1000},
                      "lifecycle_cases": {"quick": 10, "thorough": 30},
                      "frameless_parent_cases": {"quick": 6, "thorough": 6},
                      "greenback_extractions": {"quick": 40, "thorough": 160},
-                     "portal_with_portal_run_sync": {"quick": 5, "thorough": 20}}
+                     "portal_with_portal_run_sync": {"quick": 5, "thorough": 20},
+                     "greenback_resumed_by_throw": {"quick": 5, "thorough": 7}}
 SHARD_TIMEOUT = {"quick": 400, "thorough": 3600}
 
 
@@ -372,7 +373,7 @@ def worker(spec):
                     [f.f_code.co_name for f in got], [f.f_code.co_name for f in log]))
             if any(f.hide for f in s.frames if f.pyframe.f_code in mine):
                 problems.append("a harness frame is hidden")
-            impl = [f for f in s.frames if (f.modname or "").startswith("greenback.")]
+            impl = [f for f in s.frames if (f.modname or "").split(".")[0] in ("greenback", "outcome", "greenlet")]
             shown = [f.funcname for f in impl if not f.hide]
             # the API functions the task itself called may show; the bridging machinery may not
             if [n for n in shown if n not in API] or shown.count("greenback_shim") > 1:
@@ -381,5 +382,86 @@ def worker(spec):
             if problems:
                 res.violation(kind="greenback-stack", depth=depth, portal=portal, where=where, problems=problems,
                               visible=[f.funcname for f in s.frames if not f.hide], interp=interp)
+    # ---- resumed by an exception: an event loop that *throws* into its tasks (asyncio cancellation) makes
+    # greenback forward the resumption through outcome.Error.send - one more piece of bridging machinery
+    import asyncio
+
+    def cancelled_case(depth):
+        out = {}
+        clog = []
+
+        async def c_leaf(ev):
+            clog.append(sys._getframe(0))
+            out["inside"] = stackscope.extract(asyncio.current_task().get_coro())
+            out["arrived"] = True
+            await ev.wait()
+
+        def c_sync(ev, k):
+            clog.append(sys._getframe(0))
+            if k > 0:
+                return greenback.await_(c_async(ev, k - 1))
+            return greenback.await_(c_leaf(ev))
+
+        async def c_async(ev, k):
+            clog.append(sys._getframe(0))
+            return c_sync(ev, k)
+
+        async def c_worker(ev):
+            clog.append(sys._getframe(0))
+            try:
+                await asyncio.sleep(1000)
+            except asyncio.CancelledError:
+                c_sync(ev, depth)
+
+        async def c_victim(ev):
+            clog.append(sys._getframe(0))
+            await greenback.ensure_portal()
+            await c_worker(ev)
+
+        async def c_main():
+            ev = asyncio.Event()
+            t = asyncio.ensure_future(c_victim(ev))
+            for _ in range(5):
+                await asyncio.sleep(0)
+            t.cancel()
+            for _ in range(10000):
+                if out.get("arrived"):
+                    break
+                await asyncio.sleep(0)
+            out["outside"] = stackscope.extract(t.get_coro())
+            out["log"] = list(clog)
+            ev.set()
+            await t
+
+        asyncio.run(c_main())
+        return out, {f.__code__ for f in (c_leaf, c_sync, c_async, c_worker, c_victim)}
+
+    for depth in range(0, min(spec["max_depth"], 6) + 1):
+        out, cmine = cancelled_case(depth)
+        res.count("greenback_resumed_by_throw")
+        for where in ("inside", "outside"):
+            s = out.get(where)
+            res.evaluations += 1
+            res.count("greenback_extractions")
+            res.nontrivial("greenback-cancelled", depth, where)
+            problems = []
+            if s is None:
+                problems.append("no extraction")
+            else:
+                if s.error is not None:
+                    problems.append("error %r" % (s.error,))
+                got = [f.pyframe for f in s.frames if f.pyframe.f_code in cmine]
+                exp_log = out["log"]
+                if len(got) != len(exp_log) or any(a is not b for a, b in zip(got, exp_log)):
+                    problems.append("harness frames differ: got %r expected %r" % (
+                        [f.f_code.co_name for f in got], [f.f_code.co_name for f in exp_log]))
+                shown = [(f.modname, f.funcname) for f in s.frames if not f.hide
+                         and (f.modname or "").split(".")[0] in ("greenback", "outcome", "greenlet")]
+                if [x for x in shown if x[1] not in API]:
+                    problems.append("bridging internals visible: %r" % (shown,))
+            if problems:
+                res.violation(kind="greenback-stack", depth=depth, portal="ensure_portal, resumed by throw", where=where,
+                              problems=problems, visible=[f.funcname for f in (s.frames if s else []) if not f.hide],
+                              interp=interp)
     res.sample({"greenback_depths": list(range(0, spec["max_depth"] + 1))})
     return res
